@@ -94,6 +94,9 @@ Definition bonded_power (st : state) : Z := bonded_tokens st / power_reduction s
 (** VoteThreshold.MulInt64(totalBondedPower) — panics when out of range — then RoundInt *)
 Definition threshold_raw (p : params) (B : Z) : Z := mul_int (p_threshold p) B.
 Definition threshold_power (p : params) (B : Z) : Z := round_int (threshold_raw p B).
+(** MulInt64 panics outside the Dec range; RoundInt (NewIntFromBigIntMut) panics above 256 bits *)
+Definition threshold_ok (p : params) (B : Z) : bool :=
+  in_range (threshold_raw p B) && (Z.abs (threshold_power p B) <? 2 ^ 256).
 
 (** sort.Sort by rate (any sort: the result below does not depend on the order of ties) *)
 Fixpoint insert_vote (v : pvote) (l : list pvote) : list pvote :=
@@ -175,7 +178,7 @@ Definition valid_pairs (p : params) (st : state) : list nat :=
 (** UpdateExchangeRates, as far as prices are concerned *)
 Definition update (fx : bool) (p : params) (st : state) (h : Z) : outcome :=
   let pairs := voted_pairs st in
-  if (match pairs with [] => false | _ => true end) && negb (in_range (threshold_raw p (bonded_power st)))
+  if (match pairs with [] => false | _ => true end) && negb (threshold_ok p (bonded_power st))
   then Panic
   else
     let valid := valid_pairs p st in
